@@ -7,7 +7,7 @@ use tokio::time::timeout;
 use tracing::Instrument;
 
 use dns_types::protocol::types::*;
-use dns_types::zones::types::{ZoneResult, Zones};
+use dns_types::zones::types::Zones;
 
 use crate::context::Context;
 use crate::local::{resolve_local, LocalResolutionResult};
@@ -249,11 +249,10 @@ async fn resolve_with_nameserver_response<'a>(
 }
 
 /// What an upstream nameserver says about a name is never used where local
-/// data speaks for that name: if its answer follows an alias to a name in one
-/// of our authoritative zones, or to a name a hosts file or non-authoritative
-/// zone has records (of the type asked for, or an alias) for, keep the aliases
-/// up to and including that one, and let the caller resolve the target afresh
-/// - which consults the zones first.
+/// data speaks for that name: if its answer follows an alias to such a name
+/// (see `alias_into_local_data`), keep the aliases up to and including that
+/// one, and let the caller resolve the target afresh - which consults the
+/// zones first.
 fn cut_at_alias_into_local_data(
     zones: &Zones,
     qtype: QueryType,
@@ -265,21 +264,11 @@ fn cut_at_alias_into_local_data(
         return nameserver_response;
     };
 
-    for (i, rr) in rrs.iter().enumerate() {
-        if let RecordTypeWithData::CNAME { cname } = &rr.rtype_with_data {
-            let is_local = match zones.resolve(cname, qtype) {
-                Some((zone, _)) if zone.is_authoritative() => true,
-                Some((_, ZoneResult::Answer { rrs })) => !rrs.is_empty(),
-                Some((_, ZoneResult::CNAME { .. } | ZoneResult::Delegation { .. })) => true,
-                Some((_, ZoneResult::NameError)) | None => false,
-            };
-            if is_local {
-                return NameserverResponse::CNAME {
-                    rrs: rrs[..=i].to_vec(),
-                    cname: cname.clone(),
-                };
-            }
-        }
+    if let Some((i, cname)) = alias_into_local_data(zones, qtype, rrs) {
+        return NameserverResponse::CNAME {
+            rrs: rrs[..=i].to_vec(),
+            cname,
+        };
     }
 
     nameserver_response
